@@ -13,7 +13,7 @@ class Prop:
     id = "C00"
     level = "exploration"
     tiers = {"quick": [("default", 1000)], "thorough": [("default", 10000)]}
-    wall_caps = {"quick": 150, "thorough": 1500}
+    wall_caps = {"quick": 150, "thorough": 2700}
     rule_text = ""
     components = {"real": ["haiway (unmodified, imported from /repo/src)", "asyncio.Task/Future"],
                   "stub": ["event loop selector/clock (SimLoop)"]}
